@@ -16,7 +16,7 @@ import numpy as np
 from . import core, shim, tlc
 
 INV = "SPECIFICATION Spec\nINVARIANT FreeSpace\nINVARIANT NoPeriodicImage\nCHECK_DEADLOCK FALSE\n"
-BASE = {"RhsSet": "impulses", "MaxSolves": 2, "ResetBeforeCopy": True, "Corner": "low", "Reflect": "even"}
+BASE = {"RhsSet": "impulses", "MaxSolves": 2, "ResetBeforeCopy": True, "Corner": "low", "Reflect": "even", "SkipZeroRhs": False}
 _SOLVERS: dict = {}
 
 
@@ -130,10 +130,27 @@ def measured_kernel(chk, shape, x_range, real_t, rng):
         chk.violation({"kind": "poisson_kernel", "dim": D}, f"solve {shape} is not the linear combination of its impulse responses")
 
 
+def zero_rhs(chk, shape, real_t, rng):
+    """an identically zero right-hand side must give an identically zero solution, whatever the output array and
+    the work buffers held before (e.g. the result of an earlier solve)."""
+    s = solver(shape, 1.0, real_t)
+    D = len(shape)
+    first = np.zeros(shape, dtype=real_t)
+    s.solve(solution_field=first, rhs_field=rng.integers(-3, 4, shape).astype(real_t))
+    poison(s, rng)
+    s.solve(solution_field=first, rhs_field=np.zeros(shape, dtype=real_t))  # reuse the output array of the earlier solve
+    chk.traces += 1
+    chk.count(("zero_rhs", shape, real_t.__name__))
+    if np.abs(first).max() > tol_for(real_t, 1.0):
+        chk.violation({"kind": "poisson_zero_rhs", "dim": D}, f"{D}-D solve {shape} {real_t.__name__} of an identically zero right-hand side into a "
+                      f"reused solution array returned max |u| = {np.abs(first).max():.3g} (must be zero: independent of earlier solves)")
+
+
 def vector_solve(chk, shape, real_t, rng):
     s = solver(shape, 1.0, real_t)
     rhs = rng.integers(-3, 4, (3,) + shape).astype(real_t)
-    out = np.zeros_like(rhs)
+    rhs[int(rng.integers(0, 3))] = 0   # one identically zero component
+    out = np.full(rhs.shape, 7.0, dtype=real_t)
     poison(s, rng)
     s.vector_field_solve(solution_vector_field=out, rhs_vector_field=rhs)
     ref = np.zeros_like(rhs)
@@ -155,7 +172,7 @@ def run(chk: core.Check):
     for shape in mshapes:
         res = tlc.run_wrapped("Poisson", dict(BASE, Shape=shape), INV, raw={"StaleVals": "{-1, 1}"}, timeout=2400)
         chk.add_tlc(f"Poisson{shape}", res)
-    for k, v in (("ResetBeforeCopy", False), ("Corner", "high"), ("Reflect", "none")):
+    for k, v in (("ResetBeforeCopy", False), ("Corner", "high"), ("Reflect", "none"), ("SkipZeroRhs", True)):
         res = tlc.run_wrapped("Poisson", dict(BASE, Shape=[3, 3], **{k: v}), INV, raw={"StaleVals": "{-1, 1}"}, timeout=600)
         chk.add_tlc(f"control {k}={v}", res, expect_violation="FreeSpace")
     # emission: behaviours (sequences of two solves) on the shapes the replay uses
@@ -188,6 +205,9 @@ def run(chk: core.Check):
     for shape in [(2, 3, 4)] + ([] if quick else [(4, 4, 4), (3, 5, 2)]):
         for real_t in (np.float64, np.float32):
             vector_solve(chk, shape, real_t, rng)
+    for shape in [(3, 4), (2, 3, 4)] + ([] if quick else [(5, 5), (4, 3, 3)]):
+        for real_t in (np.float64, np.float32):
+            zero_rhs(chk, shape, real_t, rng)
     chk.assumptions += [
         "the solve is linear in the right-hand side and in the stale buffer contents: unit impulses and single stale cells cover all "
         "contents in the model; the code is driven with impulses at EVERY cell (measured kernel) and dense integer fields",
